@@ -329,7 +329,23 @@ retry:
 				goto finished
 			}
 
+			// Never link in front of a node that is already marked deleted: a
+			// deleted node with an equal key would be hidden behind this node
+			// from its deleter's unlink pass and reclaimed while still linked.
+			if _, nextDeleted := next.getNext(i); nextDeleted {
+				s.findPath(itm, insCmp, buf, sts)
+				continue fixThisLevel
+			}
+
 			if buf.preds[i].dcasNext(i, next, x, false, false) {
+				// The node may have been marked deleted after the check above.
+				// The deleter's unlink pass could not see it at this level as it
+				// was not linked yet, so unlink it here. Otherwise the node can be
+				// reclaimed while it is still reachable at this level.
+				if _, deleted = x.getNext(i); deleted {
+					s.findPath(itm, insCmp, buf, sts)
+					goto finished
+				}
 				break fixThisLevel
 			}
 
